@@ -37,24 +37,27 @@ def time_function_spellings(dialect: str) -> list[tuple[str, str]]:
     # a spelling is native when its builder converts the format through TIME_MAPPING: probe with a key
     # whose mapped value differs from the key itself
     probe = next((k for k in sorted(d.TIME_MAPPING) if d.TIME_MAPPING[k] != k and "'" not in k), None)
-    if probe is None:
-        return out
+    identity = probe is None
+    if identity:
+        probe = "%Y"
     q = d.tokenizer_class.QUOTES[0]
     q = q if isinstance(q, str) else q[0]
     for name in sorted(d.parser_class.FUNCTIONS):
         if not name.replace("_", "").isalnum():
             continue
-        sql = f"SELECT {name}(a, {q}{probe}{q})"
-        try:
-            tree = d.parse(sql)[0]
-        except Exception:
-            continue
-        if tree is None:
-            continue
-        node = tree.find(*targets)
-        if node is not None and isinstance(node.args.get("format"), exp.Literal) \
-                and node.args["format"].this == d.TIME_MAPPING[probe]:
-            out.append((f"timefn.{name.lower()}", name))
+        for order, template in (("", "{name}(a, {fmt})"), (".fmtfirst", "{name}({fmt}, a)")):
+            sql = "SELECT " + template.format(name=name, fmt=f"{q}{probe}{q}")
+            try:
+                tree = d.parse(sql)[0]
+            except Exception:
+                continue
+            if tree is None:
+                continue
+            node = tree.find(*targets)
+            if node is not None and isinstance(node.args.get("format"), exp.Literal) \
+                    and node.args["format"].this == d.TIME_MAPPING.get(probe, probe):
+                out.append((f"timefn.{name.lower()}{order}", template.replace("{name}", name)))
+                break
     return out
 
 
@@ -173,10 +176,11 @@ def core_grammar(dialect: str = "", comments: bool = False, time_formats: bool =
     if time_formats:
         for tag, fn in [("timefn.str_to_time", "STR_TO_TIME"), ("timefn.time_to_str", "TIME_TO_STR"),
                         ("timefn.str_to_date", "STR_TO_DATE")]:
-            if not any(fn == n for _, n in native_fns):
+            if not any(n.startswith(fn + "(") for _, n in native_fns):
                 expr.append(A(tag, 1, fn + "({expr}, {timefmt})"))
-        for tag, fn in native_fns:
-            expr.append(A(tag, 1, fn + "({expr}, {ntimefmt})"))
+        for tag, template in native_fns:
+            expr.append(A(tag, 1, template.replace("a", "{expr}", 1).replace("{fmt}", "{ntimefmt}") if "(a," in template
+                          else template.replace(", a)", ", {expr})").replace("{fmt}", "{ntimefmt}")))
     py = ["%Y", "%m", "%d", "%H", "%M", "%S", "%f", "%j", "%y", "%b", "%B", "%a", "%p", "%I", "%z", "%%"]
     timefmt = [A(f"tfmt.{i}", 0, s(f)) for i, f in enumerate(list(TIME_FORMATS) + ([] if dialect else py))]
     native = [k for k in sorted(d.TIME_MAPPING) if q not in k] if dialect else []
